@@ -103,6 +103,11 @@ def order_sweep(ctx, db, aff, r):
             try:
                 fa, fb = FractionScalar(FractionValue(x), u), FractionScalar(FractionValue(y), v)
                 order_pair(ctx, fa, fb, A, B, noise, case, "FractionScalar")
+                # amounts that *print* like the ones just compared (the same six significant digits) are other amounts
+                for x2, y2 in ((x * (1 + 3e-7), y), (x * (1 - 3e-7), y), (x, y * (1 + 3e-7)), (x, y * (1 - 3e-7))):
+                    A2 = Fr(au.off) + Fr(au.slope) * Fr(x2)
+                    B2 = Fr(av.off) + Fr(av.slope) * Fr(y2)
+                    order_pair(ctx, FractionScalar(FractionValue(x2), u), FractionScalar(FractionValue(y2), v), A2, B2, noise, dict(case, x=x2, y=y2, prints_like=[x, y]), "FractionScalar")
             except Exception as e:
                 ctx.ev()
                 ctx.violation("FractionScalar:construction-raised", dict(case, error=repr(e)[:200]), replay=case)
